@@ -27,7 +27,7 @@ GROUPS = {
     "C10": [("regex", ["regex.match", "regex.search", "regex.no_panic"]), ("e2e_fn", ["e2e_fn.members", "e2e_fn.multiplicity", "e2e_fn.no_panic"])],
     "C11": [("arith", ["process_index.select", "process_slice.select", "process_index.no_panic", "process_slice.no_panic"]),
             ("text_arith", ["text_arith.members", "text_arith.order", "text_arith.no_panic"])],
-    "C15": [("e2e", ["e2e.view_independent", "e2e.members", "e2e.multiplicity", "e2e.order"]), ("text_filter", ["text_filter.api_agree"]), ("cmp_struct", ["eq.structural", "lt.order"])],
+    "C15": [("e2e", ["e2e.view_independent", "e2e.second_impl.members", "e2e.second_impl.multiplicity", "e2e.second_impl.order"]), ("text_filter", ["text_filter.api_agree"]), ("cmp_struct", ["eq.structural", "lt.order"])],
 }
 # Verus unit -> bounded groups that can produce a failing input for it
 CEX_GROUPS = {
